@@ -671,7 +671,7 @@ pub fn checks() -> Vec<CheckDef> {
         level: "exploration",
         runs_quick: 6_000,
         runs_thorough: 300_000,
-        rule: "2-8 Replicas, each over its own SqliteStorage handle (own actor thread and connection) on the same directory, run scripts of commits (operations built through the TaskData API from reads made in earlier transactions), undo, working-set rebuilds and reads; every storage call of every handle is a scheduling point of the seeded scheduler, which also issues BEGINs while another handle holds the write lock (the BEGIN then really blocks in SQLite's busy handler until the holder is scheduled through its commit; never two waiters). Audit through a fresh handle: the stored operation log equals the concatenation of the successful commits in the order their storage commits returned, an undo only succeeded on the then most recent operations, the stored tasks equal the one-at-a-time application of those commits, no working-set entry is duplicated. Non-trivial: commits of different handles alternated; distinct = distinct trace hash.",
+        rule: "2-8 Replicas, each over its own SqliteStorage handle (own actor thread and connection) on the same directory, run scripts of commits (operations built through the TaskData API from reads made in earlier transactions), undo, working-set rebuilds and reads; every storage call of every handle is a scheduling point of the seeded scheduler, which also issues BEGINs while another handle holds the write lock (the BEGIN then really blocks in SQLite's busy handler until the holder is scheduled through its commit; never two waiters). Whether a request blocks is observed, not assumed: after issuing it the executor waits for exactly one of two events, its reply or a busy-handler sleep of an actor thread (nanosleep is interposed), so a request that blocks anywhere (not only in BEGIN) parks its handle until the other handles have left their transactions. Audit through a fresh handle: the stored operation log equals the concatenation of the successful commits in the order their storage commits returned, an undo only succeeded on the then most recent operations, the stored tasks equal the one-at-a-time application of those commits, no working-set entry is duplicated. Non-trivial: commits of different handles alternated; distinct = distinct trace hash.",
         gen: gen_c17,
         run: run_c17,
         shrink: shrink_c17,
